@@ -24,7 +24,9 @@ def analyse(cfg, call):
     f.ok = bool(ops) and ops[-1].kind == "ok"
     f.cancelled = bool(ops) and ops[-1].kind in CANCEL_LABELS
     f.nested = bool(ops) and ops[-1].kind in ("nested",)
-    f.faulted = any(r[0] == "fault" for r in call.records)
+    # a raising observability hook (C15) does not excuse anything; other callback faults do
+    f.faulted = any(r[0] == "fault" and r[1] not in ("before_sleep", "metric", "log")
+                    for r in call.records)
     polled = any(r[0] == "poll" and r[1] for r in call.records)
     f.handler_abort = any(r[0] == "handler" and r[4] == "ABORT" for r in call.records)
     f.aborted = polled or f.handler_abort or (bool(ops) and ops[-1].kind == "abort")
